@@ -16,7 +16,7 @@ LEVEL = "exploration"
 RUNS = {"quick": 9000, "thorough": 300000}
 TIME_CAP = {"quick": 150, "thorough": 1500}
 RULE = ("histories of API calls over 1-3 instances; inputs: clean, preprocess error, parse error, runtime error (early / last statement / "
-        "iteration behaviour / spawned script), non-terminating (cut by the limit), sleepers, global set/get, config load/get, every type "
+        "iteration behaviour / spawned script / main script while a spawned one is pending), non-terminating (cut by the limit), sleepers, global set/get, config load/get, every type "
         "byte, null and bogus handles, malformed bytes; non-trivial when >= 2 calls hit one instance and a predecessor was not clean; "
         "distinct by hash of the sequence of (instance, input class, return code)")
 REAL = ["src/export/sqfvm.cpp (exported functions called directly)", "src/runtime", "src/parser/*", "src/operators/*", "src/fileio/default.cpp"]
@@ -25,7 +25,7 @@ ASSUMPTIONS = ["calls on destroyed handles are not generated: the API cannot tel
                "the return code of exit__ inside a call is not judged (the header does not fix it)",
                "sqfvm_load_config has no call_data parameter: only user_data is checked for its diagnostics"]
 
-CLASSES = ["clean", "clean", "set", "get", "pp_error", "parse_error", "rt_error_early", "rt_error_last", "rt_error_behaviour", "rt_error_spawned",
+CLASSES = ["clean", "clean", "set", "get", "pp_error", "parse_error", "rt_error_early", "rt_error_last", "rt_error_behaviour", "rt_error_spawned", "rt_error_pending",
            "nonterminating", "asleep_past_limit", "asleep_past_limit", "sleepers", "cfg_get", "preprocess_only", "parse_only", "bad_type", "null_handle", "bogus_handle", "malformed", "status", "exit"]
 
 
@@ -75,6 +75,14 @@ def gen_call(rng, k, state, inst):
         c["expect"] = -6
         c["markers_set"] = [k, k + 1, k + 3]
         c["never"] = [k + 2]
+    elif cls == "rt_error_pending":
+        # the main script fails while a script it spawned is still pending (not started yet, or asleep): the call ends -6 and the
+        # pending script belongs to that call - it must never run, in particular not inside a later call
+        body = rng.choice(["t__ [%d];" % (k + 1), "sleep 0.001; t__ [%d];" % (k + 1), "sleep 0.01; t__ [%d];" % (k + 1), "uiSleep 0.001; t__ [%d];" % (k + 1)])
+        c["text"] = "t__ [%d]; [] spawn { %s }; fault__ 1; t__ [%d];" % (k, body, k + 2)
+        c["expect"] = -6
+        c["markers"] = [[k, None]]
+        c["never"] = [k + 1, k + 2]
     elif cls == "nonterminating":
         c["text"] = rng.choice(["t__ [%d]; [] spawn { while { true } do { _a = 1; }; }; t__ [%d];" % (k, k + 1),
                                 "t__ [%d]; t__ [%d]; for \"_i\" from 0 to 1 step 0 do { _a = 1; }; t__ [%d];" % (k, k + 1, k + 2)])
